@@ -335,6 +335,10 @@ func (e *Exec) ApplyOp(tx *bolt.Tx, w *model.Bucket, op Op, writable bool) {
 		return
 	}
 	isRoot := len(op.Path) == 0
+	if writable && !isRoot && rb != nil && e.Cfg.FillPct > 0 {
+		// FillPercent is not persisted: a bucket reopened in a later transaction gets the run's value again
+		rb.FillPercent = float64(e.Cfg.FillPct) / 100
+	}
 	key := MkKey(op.Key, op.Pad)
 	what := op.String()
 	var notW []error
